@@ -15,6 +15,12 @@ import (
 )
 
 // PreCall is "precall <regexp on the callee's full name> :: <condition over parameters and locals>".
+// PreAssign is an assignment-site obligation (a semantic frame condition).
+type PreAssign struct {
+	Type, Field string
+	Cl          *Clause
+}
+
 type PreCall struct {
 	Re *regexp.Regexp
 	Cl *Clause
@@ -55,7 +61,10 @@ type Contract struct {
 	EnsuresTrusted []*Clause // "ensures-trusted P": assumed at call sites like an ensures clause but NOT checked against the body (the part of a partially verified contract that stays an assumption, e.g. the CBOR round trip of a state accessor); listed in the evidence
 	Stable   []*Clause // "stable P": two-state clause over the receiver only that every call establishes AND that is closed under composition (checked); the container/heap models assume it for the unknown sequence of Swap calls the library makes
 	Defines  []*Clause // definitional postconditions: introduce an uninterpreted predicate as "this deterministic function accepts"; assumed at call sites, not checked
+	ClosureEnsures map[int][]*Clause // "closure N ensures P": P holds at every exit of the N-th literal's body (old() = the state the body was entered in); implies `closure N checked`
+	ClosureChecked map[int]bool    // "closure N checked": the N-th function literal's body is executed (free arguments, havocked heap) so that call-site obligations and safety obligations apply inside it
 	ClosureAccepts map[int]*Clause // "closure N accepts P": whenever the N-th function literal returns a nil error, P holds of its arguments
+	PreAssigns []*PreAssign // "preassign T.f :: P": every assignment in the body to field f of a T is made only in states satisfying P (evaluated before the store)
 	PreCalls []*PreCall // call-site obligations: every call of a matching callee is made only when the condition holds (dominance)
 	EnsuresLocal []*Clause // postconditions that may mention top-level local variables (their value at the return)
 	Assumes  []*Clause
@@ -113,7 +122,7 @@ type Lemma struct {
 var clauseKeywords = map[string]bool{
 	"func": true, "props": true, "safety": true, "requires": true, "ensures": true,
 	"modifies": true, "loop": true, "trusted": true, "pure": true, "opaque": true, "ghost": true,
-	"global": true, "lemma": true, "assumes": true, "import": true, "note": true, "cases": true, "end": true, "trustframe": true, "ensures-local": true, "defines": true, "precall": true, "closure": true, "iface": true, "init": true, "nowrite": true, "onlyhere": true, "assume-pre": true, "stable": true, "bodyonly": true, "ensures-trusted": true,
+	"global": true, "lemma": true, "assumes": true, "import": true, "note": true, "cases": true, "end": true, "trustframe": true, "ensures-local": true, "defines": true, "precall": true, "preassign": true, "closure": true, "iface": true, "init": true, "nowrite": true, "onlyhere": true, "assume-pre": true, "stable": true, "bodyonly": true, "ensures-trusted": true,
 }
 
 var funcKeyRe = regexp.MustCompile(`^(?:\(\s*\*?\s*(\w+)\s*\)\s*\.\s*(\w+)|(\w+)\s*\.\s*(\w+)|(\w+))`)
@@ -287,6 +296,34 @@ func parseSpecFile(path, relDir string) (*PkgSpec, error) {
 				cur.Defines = append(cur.Defines, c)
 			case "closure":
 				f := strings.Fields(it.text)
+				if len(f) == 2 && f[1] == "checked" {
+					n, err := strconv.Atoi(f[0])
+					if err != nil || n < 1 {
+						return nil, fmt.Errorf("%s:%d: bad closure ordinal %q", path, it.line, f[0])
+					}
+					if cur.ClosureChecked == nil {
+						cur.ClosureChecked = map[int]bool{}
+					}
+					cur.ClosureChecked[n] = true
+					continue
+				}
+				if len(f) >= 3 && f[1] == "ensures" {
+					n, err := strconv.Atoi(f[0])
+					if err != nil || n < 1 {
+						return nil, fmt.Errorf("%s:%d: bad closure ordinal %q", path, it.line, f[0])
+					}
+					if cur.ClosureEnsures == nil {
+						cur.ClosureEnsures = map[int][]*Clause{}
+					}
+					if cur.ClosureChecked == nil {
+						cur.ClosureChecked = map[int]bool{}
+					}
+					c := mk("ensures", strings.TrimSpace(strings.SplitN(it.text, "ensures", 2)[1]), it.line, len(cur.ClosureEnsures[n]))
+					c.Label = fmt.Sprintf("closure%d.ensures%d", n, len(cur.ClosureEnsures[n]))
+					cur.ClosureEnsures[n] = append(cur.ClosureEnsures[n], c)
+					cur.ClosureChecked[n] = true
+					continue
+				}
 				if len(f) < 3 || f[1] != "accepts" {
 					return nil, fmt.Errorf("%s:%d: closure clause must be `closure N accepts <condition>`", path, it.line)
 				}
@@ -300,6 +337,15 @@ func parseSpecFile(path, relDir string) (*PkgSpec, error) {
 					cur.ClosureAccepts = map[int]*Clause{}
 				}
 				cur.ClosureAccepts[n] = c
+			case "preassign":
+				parts := strings.SplitN(it.text, "::", 2)
+				tf := strings.SplitN(strings.TrimSpace(parts[0]), ".", 2)
+				if len(parts) != 2 || len(tf) != 2 {
+					return nil, fmt.Errorf("%s:%d: preassign clause must be `preassign Type.field :: <condition>`", path, it.line)
+				}
+				c := mk("ensures", strings.TrimSpace(parts[1]), it.line, len(cur.PreAssigns))
+				c.Label = fmt.Sprintf("preassign%d", len(cur.PreAssigns))
+				cur.PreAssigns = append(cur.PreAssigns, &PreAssign{Type: tf[0], Field: tf[1], Cl: c})
 			case "precall":
 				parts := strings.SplitN(it.text, "::", 2)
 				if len(parts) != 2 {
